@@ -22,6 +22,9 @@ struct eng_profile {
         unsigned max_lines;
         unsigned p_lookup;          /* per-mille chance per service step that the harness calls the lookup helpers of the public API */
         unsigned p_cut;             /* % of histories whose stimulus phase is cut at a random step (progress measured from mid-flight) */
+        unsigned p_toggle;          /* per-mille chance per service step that the harness flips the disable flag of a command or a group */
+        unsigned p_nul;             /* % of lines with a NUL byte in or after them */
+        unsigned p_stray_cr;        /* % of request lines with a CR that is not followed by LF */
         bool unspecified_cells;     /* also enter cells the properties leave open (C03 replay only) */
 };
 extern struct eng_profile EP;
@@ -44,6 +47,7 @@ extern long LINES_DONE;                   /* non-blank lines whose LF has been d
 void eng_monitors_install(void);          /* hook the C01/C11/C14/C15/C18 monitors into the io callbacks */
 void eng_after_service(cat_status s);     /* post-step monitors (sampling, probe) */
 cat_status eng_trigger(int ci, cat_cmd_type t);
+cat_status eng_release_status(void);    /* OK or one of many non-zero values */
 void eng_hold_exit(cat_status st);        /* harness-side release request with model bookkeeping */
 void eng_spurious_hold_exit(void);
 long eng_progress_bound(void);
